@@ -160,9 +160,9 @@ CLAIMS.update({
      'CopyOut); a call\'s value is the tuple of everything it read. TLC checks SeqEquivalent (a function of the call alone), ArgsUntouched, '
      'NoSharedStructure, CacheByIdentity and MpfrScoped over every interleaving, and rejects five wrong designs (context in shared state, '
      'cache keyed by name, no copy at the boundary, process-wide MPFR precision, aliased result). Conformance: each history is one '
-     'pristine process that first computes the result of every call ALONE (fork per call), then makes sequential calls over 17 functions '
+     'pristine process that first computes the result of every call ALONE (fork per call), then makes sequential calls over 19 functions '
      '(mutating / returning their list argument, nested containers, MPFR functions, own context, helpers, same-named twins, transformed '
-     'copies) x 7 contexts with fresh interpreters in between, writes into every returned container, and runs two-thread phases stepped '
+     'copies, named constants) x 10 contexts with fresh interpreters in between, writes into every returned container, and runs two-thread phases stepped '
      'through schedules TLC generated from Runtime.tla (RuntimeSched, -simulate) at line granularity of BytecodeInterpreter.eval, gmputils\' scoped '
      'MPFR calls and the compiled function. Every completed call is a record judged by spec/RuntimeTrace.tla.'),
      note='Two threads, two calls each per phase; stepping sees Python line events only (a switch inside a C call cannot be forced; thorough adds free-running '
